@@ -84,6 +84,7 @@ use write_fonts::{tables::hhea::Hhea, tables::hmtx::Hmtx, tables::maxp::Maxp, Fo
 
 const MAX_COMPOSITE_OPERATIONS_PER_GLYPH: u8 = 64;
 const MAX_NESTING_LEVEL: u8 = 64;
+const NO_VARIATION_INDEX: u32 = 0xFFFF_FFFF;
 // Support 24-bit gids. This should probably be extended to u32::MAX but
 // this causes tests to fail with 'subtract with overflow error'.
 // See <https://github.com/googlefonts/fontations/issues/997>
@@ -836,12 +837,18 @@ fn remap_delta_set_indices(
             continue;
         };
 
-        let Some((new_var_idx, delta)) = varidx_delta_map.get(var_idx) else {
-            continue;
+        // an entry of the DeltaSetIndexMap may say "no variation": it keeps its place in the new map
+        let (new_var_idx, delta) = if *var_idx == NO_VARIATION_INDEX {
+            (NO_VARIATION_INDEX, 0)
+        } else {
+            let Some((new_var_idx, delta)) = varidx_delta_map.get(var_idx) else {
+                continue;
+            };
+            (*new_var_idx, *delta)
         };
 
-        new_deltaset_idx_varidx_map.insert(new_idx, *new_var_idx);
-        deltaset_idx_delta_map.insert(deltaset_idx, (new_idx, *delta));
+        new_deltaset_idx_varidx_map.insert(new_idx, new_var_idx);
+        deltaset_idx_delta_map.insert(deltaset_idx, (new_idx, delta));
         new_idx += 1;
     }
     (new_deltaset_idx_varidx_map, deltaset_idx_delta_map)
